@@ -191,7 +191,10 @@ func racePassMain(tier string) {
 	if tier == "thorough" {
 		scale = 6
 	}
-	top := ev.Scratch("c18race")
+	top := os.Getenv("C18_RACE_DIR") // owned and removed by the parent (also when this process dies)
+	if top == "" {
+		top = ev.Scratch("c18race")
+	}
 	defer os.RemoveAll(top)
 	os.MkdirAll(top+"/cwd", 0o755)
 	os.Chdir(top + "/cwd")
@@ -207,6 +210,7 @@ func racePassMain(tier string) {
 	}
 	g.contexts()
 	n := setupEnv(top+"/prefix", top+"/w")
+	raceMode = true
 	fullWatchdog = 0
 	watchdog = 10 * 60 * 1e9 // the detector slows everything down; hangs are not this pass's business
 	ops := 0
@@ -240,8 +244,10 @@ func runRacePass(r *ev.Run) map[string]interface{} {
 	if _, err := os.Stat(bin); err != nil {
 		ev.HarnessError("race-detector build %s missing (checks/c18/RACE makes run.sh build it)", bin)
 	}
+	rdir := ev.Scratch("c18race")
+	defer os.RemoveAll(rdir)
 	cmd := exec.Command(bin, "--racepass="+r.Tier)
-	cmd.Env = append(os.Environ(), "GOMAXPROCS=4", "GORACE=halt_on_error=0 exitcode=0")
+	cmd.Env = append(os.Environ(), "GOMAXPROCS=4", "GORACE=halt_on_error=0 exitcode=0", "C18_RACE_DIR="+rdir)
 	var werr strings.Builder
 	cmd.Stderr = &werr
 	out, err := cmd.Output()
@@ -253,9 +259,23 @@ func runRacePass(r *ev.Run) map[string]interface{} {
 			rep = rep[:i]
 		}
 		nrep++
-		// the first gocoin frame that is not one of the check's accessor files
+		// keyed by the WRITING access (a report pairs one write with any of its
+		// readers/writers; the same unprotected write shows up with different partners):
+		// first gocoin frame of that access that is not one of the check's accessor files
+		acc := rep
+		if i := strings.Index(rep, "Goroutine "); i > 0 {
+			acc = rep[:i]
+		}
+		if j := strings.Index(acc, "Previous "); j > 0 {
+			first, second := acc[:j], acc[j:]
+			if !strings.Contains(strings.SplitN(strings.TrimSpace(first), "\n", 2)[0], "rite at") && strings.HasPrefix(second, "Previous write") {
+				acc = second
+			} else {
+				acc = first
+			}
+		}
 		fn, loc := "", ""
-		for _, m := range reRaceFrame.FindAllStringSubmatch(rep, -1) {
+		for _, m := range reRaceFrame.FindAllStringSubmatch(acc, -1) {
 			if strings.Contains(m[2], "zz_verif_c18") || strings.Contains(m[2], "c18ov") {
 				continue
 			}
